@@ -185,6 +185,41 @@ def run_driver(payloads: list[dict], jobs: int | None = None) -> list[dict]:
         out[i::jobs] = part
     return out
 
+import contextlib, signal
+class CaseTimeout(BaseException):
+    pass
+_deadlines: list = []
+@contextlib.contextmanager
+def time_limit(seconds: int):
+    """abort a single generated case that makes the real code run very long (python_jsonschema_objects compares
+    objects structurally, and the evaluator multiplies duplicates: exponential on some generated language / model
+    pairs): running time is not a property under test, the case is skipped and counted.  Limits nest (the innermost
+    deadline that expires first fires)."""
+    def _raise(signum, frame): raise CaseTimeout()
+    try:
+        signal.signal(signal.SIGALRM, _raise)
+    except ValueError:              # not in the main thread: no limit
+        yield; return
+    _deadlines.append(time.time() + seconds)
+    signal.alarm(max(1, int(min(_deadlines) - time.time()) + 1))
+    try:
+        yield
+    finally:
+        _deadlines.pop()
+        signal.alarm(0)
+        if _deadlines:
+            signal.alarm(max(1, int(min(_deadlines) - time.time()) + 1))
+
+def guarded(res, fn, *args, limit=30, **kw):
+    """run one generated case; (True, value), or (False, None) when the real code needed more than `limit` seconds
+    (the case is counted as skipped in the evidence: running time is not a property under test)"""
+    try:
+        with time_limit(limit):
+            return True, fn(*args, **kw)
+    except CaseTimeout:
+        res.bump(f'skipped: the real code ran for more than {limit} s on this case')
+        return False, None
+
 # the case (language / model / history) the harness is working on right now: reported if the real code crashes on it
 CURRENT: dict = {}
 def set_current(**kw):
